@@ -27,6 +27,11 @@ Template directives (all start with `//@@`; payloads in <<< >>> may span lines):
                                          emit_last / emit_byte of the LAST byte written; dead lets are dropped
   //@@ CUT <<<start>>> <<<end>>>          drop the source text from `start` up to (not including) `end`;
                                          the number of dropped lines is reported in the evidence
+  //@@ CUTBLOCK <<<anchor>>> <<<text>>>   the contents of the first `{ .. }` block after `anchor` (brace-matched)
+                                         are replaced by `text`; dropped lines are reported in the evidence
+  //@@ FORWHILE n                        rule R9: the n-th loop, `for x in a..b { B }`, is desugared to
+                                         `let mut verif_it = a; let verif_end = b; while verif_it < verif_end { let x = verif_it; verif_it += 1; B }`
+                                         (Verus for-loops do not support `continue`)
   //@@ BODY                              emit `{ transformed body }`
   //@@ CHECKSIG <file> :: <hdr>.. <<<sig>>>  only checks that a (bodiless) declaration
                                          still has this signature
@@ -266,6 +271,31 @@ def transform_body(body, dirs, log):
                 raise LostAnchor(f'CUT end anchor {end!r} not found')
             edits.append((a, b, ''))
             log['CUT (source lines dropped)'] = log.get('CUT (source lines dropped)', 0) + body[a:b].count('\n')
+        elif kind == 'FORWHILE':
+            n = d[1]
+            lp = find_loops(body)
+            if n >= len(lp):
+                raise LostAnchor(f'loop #{n} not found (have {len(lp)})')
+            k, br = lp[n]
+            m = re.fullmatch(r'for\s+(\w+)\s+in\s+(.+?)\.\.(?!=)(.+?)\s*', body[k:br], flags=re.S)
+            if not m:
+                raise LostAnchor(f'FORWHILE loop #{n}: head {body[k:br]!r} is not `for x in a..b`')
+            var, lo_, hi_ = m.group(1), m.group(2).strip(), m.group(3).strip()
+            edits.append((k, br, f'let mut verif_it: usize = {lo_}; let verif_end: usize = {hi_}; while verif_it < verif_end '))
+            edits.append((br + 1, br + 1, f' let {var} = verif_it; verif_it = verif_it + 1;'))
+            log['R9 for-range loop desugared to while'] = log.get('R9 for-range loop desugared to while', 0) + 1
+        elif kind == 'CUTBLOCK':
+            anchor, rep = d[1], d[2]
+            pos = [m.start() for m in re.finditer(re.escape(anchor), body)]
+            if len(pos) != 1:
+                raise LostAnchor(f'CUTBLOCK anchor {anchor!r}: expected 1 occurrence, found {len(pos)}')
+            o = msk.find('{', pos[0] + len(anchor))
+            if o < 0:
+                raise LostAnchor(f'CUTBLOCK anchor {anchor!r}: no block follows')
+            from extract import match_close
+            c = match_close(msk, o)
+            edits.append((o + 1, c, ' ' + rep + ' '))
+            log['CUT (source lines dropped)'] = log.get('CUT (source lines dropped)', 0) + body[o:c].count('\n')
         elif kind == 'R7':
             cuts = []
             for d2 in dirs:
@@ -297,6 +327,12 @@ def transform_body(body, dirs, log):
             if e[2] != 'self' and re.fullmatch(r'\w+', e[2]) and body[e[0]:e[1]] == 'self':
                 # rename inside previous replacement
                 final[-1] = (prev[0], prev[1], re.sub(r'\bself\b', e[2], prev[2]))
+                continue
+            # an edit nested inside a CLOSURE edit (whose expression is re-emitted
+            # verbatim): apply it to the replacement text instead
+            inner = body[e[0]:e[1]]
+            if e[1] <= prev[1] and inner and prev[2].count(inner) == 1:
+                final[-1] = (prev[0], prev[1], prev[2].replace(inner, e[2]))
                 continue
             raise LostAnchor(f'overlapping edits at {e[0]}')
         final.append(e)
@@ -422,6 +458,10 @@ def assemble(template_path, repo):
                         dirs.append((kind, p[0]))
                     elif kind == 'CUT':
                         dirs.append(('CUT', p[0], p[1]))
+                    elif kind == 'CUTBLOCK':
+                        dirs.append(('CUTBLOCK', p[0], p[1]))
+                    elif kind == 'FORWHILE':
+                        dirs.append(('FORWHILE', int(toks[2])))
                     elif kind == 'R7':
                         dirs.append(('R7', toks[2]))
                     else:
@@ -479,8 +519,13 @@ def run_verus(path, rlimit=30, timeout=600, extra=None):
     except Exception:
         o = None
     diags = []
+    vstd_span = None
     for l in p.stderr.split('\n'):
         l = l.strip()
+        m_sp = re.match(r'\[rust_verify/[^\]]*\] &sp\.as_string = "([^"]*)"', l)
+        if m_sp:
+            vstd_span = m_sp.group(1)   # where in vstd the failed precondition is declared
+            continue
         if not l.startswith('{'):
             continue
         try:
@@ -492,7 +537,9 @@ def run_verus(path, rlimit=30, timeout=600, extra=None):
                           'spans': [{'line': s.get('line_start'), 'label': s.get('label'),
                                      'text': (s.get('text') or [{}])[0].get('text', '').strip()[:200]}
                                     for s in d.get('spans', [])],
+                          'vstd_span': vstd_span,
                           'rendered': (d.get('rendered') or '')[:2000]})
+            vstd_span = None
     res['diags'] = [d for d in diags if not d['message'].startswith('aborting due to')]
     if o is None:
         res['status'] = 'tool-error'
@@ -520,7 +567,13 @@ def run_verus(path, rlimit=30, timeout=600, extra=None):
         # `failed precondition`) belongs to vstd / a built-in operator -- typically float
         # arithmetic, which Verus cannot reason about: unsupported construct, not a verdict
         for d in res['diags']:
-            if d['message'].startswith('precondition not satisfied') and not any((sp.get('label') or '').startswith('failed precondition') for sp in d['spans']):
+            builtin = d['message'].startswith('precondition not satisfied') and not any((sp.get('label') or '').startswith('failed precondition') for sp in d['spans'])
+            vs = d.get('vstd_span') or ''
+            if builtin and re.match(r'std_specs/(core|slice|vec)\.rs', vs):
+                # index / range / length precondition of a std slice or Vec operation
+                # (vstd's specification of the panic condition): a genuine obligation
+                d['message'] = f'precondition not satisfied: index / range / length condition of a std slice operation ({vs.split(" ")[0]})'
+            elif builtin:
                 d['message'] = 'unsupported construct (precondition of a built-in / vstd operation, e.g. float arithmetic): ' + d['message']
                 d['unsupported'] = True
         if res['diags'] and all(d.get('unsupported') for d in res['diags']):
